@@ -23,8 +23,11 @@ if REPO.rstrip('/') != '/repo':
     _tag = hashlib.sha1(REPO.encode()).hexdigest()[:8]
     WORK = os.path.join(CACHE, 'alt-' + _tag)
     os.makedirs(WORK, exist_ok=True)
-    subprocess.run(['rsync', '-a', '--exclude', 'target', '--exclude', 'Cases', COQ + '/', os.path.join(WORK, 'coq') + '/'], check=True)
-    subprocess.run(['rsync', '-a', '--exclude', 'target', HARNESS + '/', os.path.join(WORK, 'harness') + '/'], check=True)
+    for _src, _dst, _ex in ((COQ, 'coq', ['target', 'Cases']), (HARNESS, 'harness', ['target'])):
+        _cmd = ['rsync', '-a'] + sum([['--exclude', e] for e in _ex], []) + [_src + '/', os.path.join(WORK, _dst) + '/']
+        _rc = subprocess.run(_cmd).returncode
+        if _rc not in (0, 24):      # 24: a source file vanished (a concurrent make replaced a .vo): harmless, make rebuilds it
+            raise SystemExit('rsync of %s failed with %d' % (_src, _rc))
     COQ = os.path.join(WORK, 'coq'); HARNESS = os.path.join(WORK, 'harness'); OUT = WORK
     TARGET = os.path.join(WORK, 'target')
     for _f in ('Cargo.toml',):
